@@ -41,6 +41,18 @@ reg('C08', 'exploration',
     'of the natural scale on derivatives; Gaussian family integral only to '
     'its documented truncation; r > 2e-12.')
 
+reg('C13', 'exploration',
+    'numpy / long-double reference monitors on gj_solve and the matrix '
+    'helpers (Python form) and on the compiled 3x3 eigen-decomposition, the '
+    'latter also under gcc ASan+UBSan',
+    'Held on every generated system in the asserted domain (non-singular, '
+    'cond <= 1e8, n 1..6, 1..3 right-hand sides, ten matrix families) and '
+    'every generated symmetric 3x3 matrix (eleven families, scales 1e-100 '
+    'to 1e100); one listed known finding (absolute pivot threshold).',
+    'Residual bound 1e3*n*eps*cond*|b|; nothing asserted for singular or '
+    'cond > 1e8 input; transpiled form of the helpers is covered by C02/C12 '
+    'code generation, not here.')
+
 _pending = {
 }
 for _i in range(1, 21):
